@@ -274,13 +274,14 @@ pub fn report_mismatch(
     m.insert("got".into(), ms_json(got));
     if b.cfg.variant == Variant::Char {
         if let Ok(s) = std::str::from_utf8(hay) {
-            if got.iter().any(|m| m.0 > hay.len() || m.1 > hay.len() || !s.is_char_boundary(m.0) || !s.is_char_boundary(m.1)) && prop != "C07" {
-                // an offset inside a character means the iterator sliced / decoded the str at a
-                // non-boundary: that is C07's business too
+            if method == Method::Lm && got.iter().any(|m| m.1 > hay.len() || !s.is_char_boundary(m.1)) && prop != "C07" {
+                // the leftmost iterator resumes at the end of the match it returns: an end offset
+                // inside a character means its next unchecked str slice is not on a boundary, which
+                // is C07's business too (no precondition check sees it)
                 acc.violate(
                     "C07",
                     engine,
-                    format!("{} of the char-wise automaton reports offsets {:?} that are not character boundaries of {:?}: the unchecked str slicing / UTF-8 decoding ran on a non-boundary", method.name(), got, show(hay)),
+                    format!("{} of the char-wise automaton returns matches {:?} whose end is not a character boundary of {:?}: the iterator resumes there with an unchecked str slice", method.name(), got, show(hay)),
                     c.clone(),
                 );
             }
@@ -392,6 +393,13 @@ pub fn sweep_searches(
     ctx.for_each_hay(|hay| {
         let occ = oracle::occurrences(&ctx.pats, hay);
         acc.evals += 1;
+        if acc.evals % 64 == 0 {
+            // the linear-time oracles used for long haystacks are validated here
+            if !oracle::fast_oracles_agree(&occ, hay.len()) {
+                acc.violate(prop, "enum", "MACHINERY: fast and definitional oracles disagree".into(), json!({"haystack": hex(hay), "patterns": ctx.pats_json()}));
+            }
+            acc.count("fast_oracle_self_checks", 1);
+        }
         let nt = nontrivial(prop, &occ);
         if nt {
             acc.nontrivial += 1;
